@@ -227,6 +227,12 @@ C08Walk(reqs, pdus, f, seg, sent) ==
   IN fin[3] /\ skip(fin)[1] > Len(reqs)
 C08(T) ==
   IF ~Has(T, "C08") THEN {} ELSE
+  \* ... nor does the call that returns from the re-transmission to the wait for the ACK of the EOF
+  { V("C08", "nak-disturbed-the-eof-ack-procedure", i, Kf(T), "", "") :
+      i \in { i \in OfSide(T, "S") : /\ T.ev[i].call = "fsm" /\ T.ev[i].exc = "none" /\ T.ev[i].pre.step = "RETRANSMITTING"
+                                      /\ T.ev[i].post.step = "WAITING_FOR_EOF_ACK" /\ T.ev[i].post.ackCnt # T.ev[i].pre.ackCnt
+                                      /\ T.ev[i].flt = <<>> /\ ~\E k \in DOMAIN T.ev[i].out : T.ev[i].out[k].t = "EOF" } }
+  \cup
   UNION { LET e == T.ev[i]
               f == CurFile(T, i)
               sent == e.pre.progress
